@@ -208,7 +208,7 @@ func runProperty(prop, tier string) (code int) {
 			if nr, err := normalize(*flagRepo, arch); err == nil && len(nr.inlined) > 0 {
 				if ctx2, err := load(*flagRepo, arch, false, nr.overlay); err == nil {
 					obs2, ok2 := runAll(ctx2)
-					if ok2 && unknownFailures(prop, obs2) < nf {
+					if ok2 && (unknownFailures(prop, obs2) < nf || os.Getenv("LZ_FORCE_NORM") != "") {
 						note := "analysed after inlining helpers that do not exist at the pinned commit: " + strings.Join(nr.inlined, ", ")
 						if len(nr.left) > 0 {
 							note += "; left alone: " + strings.Join(nr.left, "; ")
